@@ -27,11 +27,18 @@ CONTRACTS.append(Contract(
         "not self.prepend_relative_search_path or (len(%s) == len(old(search_path)) + 1 and "
         "%s[0] == %s and %s[1:] == old(search_path))" % (SP, SP, OWN, SP),
         "self.prepend_relative_search_path or %s == old(search_path)" % SP,
+        # every option of the template goes to the loader as given (one mapping, spread as it is)
+        "ext_call_kwarg('mkloader', 0, '**') is config and ext_call_nkwargs('mkloader', 0) == 2",
         # the relative loader is that loader bound to the template's own class
         "self._loader is ext_call_result('bind', 0) and ext_call_arg('bind', 0, 0) is ext_call_result('typeof', 0)",
     ],
     result="none",
-    ghost={'externals': EXT},
-    serves=["C16"],
+    ghost={'externals': EXT,
+           'harness': ('bounded.fileopts_harness', 'post_init'),
+           'search': {'generator': ('bounded.fileopts_harness', 'gen_configs')},
+           # stated against the real code only: templates loaded through `load:` are compiled with the
+           # options of the template that loads them (strict=False included: C19)
+           'concrete_ensures': ["loader_gets_every_option()"]},
+    serves=["C16", "C19"],
     notes="closure of __init__: its free variables (search_path, package_name, loader_class, config) "
           "are parameters of the contract; dirname is an uninterpreted function"))
